@@ -2,6 +2,7 @@
   C07 — invariants of the interpreter model, continued: PICK / ROLL, signature checks.
 -/
 import BtcVerif.Proofs.ScriptEvalInv2
+import BtcVerif.Proofs.ScriptFad
 
 namespace BtcVerif.Model.ScriptEval
 open BtcVerif BtcVerif.Spec BtcVerif.Spec.Script BtcVerif.Model.Script
@@ -23,11 +24,12 @@ theorem encodeOpPushdata_ok (d : Bytes) (h : d.length < 2 ^ 32) : ∃ e, encodeO
   · exact ⟨_, rfl⟩
   · omega
 
-/-- `_CheckSig`: a bool, a CScriptInvalidError, or — only for a negative `inIdx` — an IndexError -/
-theorem checkSig_cases (c : Ctx) (cap : Captured) (sig pubkey script : Bytes) :
+/-- `_CheckSig`: a bool, a CScriptInvalidError, or an exception that `RawSignatureHash` raised -/
+theorem checkSig_cases (c : Ctx) (cap : Captured) (sig pubkey script : Bytes)
+    (hlen : script.length ≤ MAX_SCRIPT_SIZE) :
     (∃ b, checkSig c cap sig pubkey script = .ok b) ∨
     checkSig c cap sig pubkey script = .error (.invalid cap) ∨
-    (checkSig c cap sig pubkey script = .error (.py "IndexError") ∧ c.inIdx < 0) := by
+    (∃ cls, checkSig c cap sig pubkey script = .error (.py cls) ∧ c.Raises cls) := by
   unfold checkSig
   by_cases h0 : sig.length = 0
   · left; simp [h0]
@@ -38,12 +40,14 @@ theorem checkSig_cases (c : Ctx) (cap : Captured) (sig pubkey script : Bytes) :
       subst hl; simp at h0
     | some ht =>
       simp only
-      split_ifs with h1 h2 h3 h4
-      · left; exact ⟨_, rfl⟩
-      · right; left; rfl
-      · right; right; exact ⟨rfl, by omega⟩
-      · right; right; exact ⟨rfl, by omega⟩
-      · left; exact ⟨_, rfl⟩
+      cases hh : c.sigHash script ht.toNat with
+      | ok d => left; exact ⟨_, rfl⟩
+      | error x =>
+        by_cases hx : x = .invalidscript
+        · subst hx; right; left; rfl
+        · right; right
+          refine ⟨excClass x, ?_, script, ht.toNat, x, hlen, ht.toNat_lt, hh, hx, rfl⟩
+          cases x <;> first | rfl | exact absurd rfl hx
 
 section arms
 variable {c : Ctx} {B : Nat} {st : St} {sop : Nat}
@@ -98,7 +102,8 @@ theorem opPickRoll_good (h : Pre B st) (hn : Named sop) (hB2 : B < 2 ^ 32) : Goo
             · exact hxl
             · exact p3 y hy
 
-theorem opCheckSig_good (script : Bytes) (h : Pre B st) (hn : Named sop) (hB : 520 ≤ B) (hB2 : B < 2 ^ 32) :
+theorem opCheckSig_good (script : Bytes) (hlen : script.length ≤ MAX_SCRIPT_SIZE) (h : Pre B st) (hn : Named sop)
+    (hB : 520 ≤ B) (hB2 : B < 2 ^ 32) :
     Good c B (opCheckSig c script sop st) := by
   unfold opCheckSig
   obtain ⟨s, al, vf, pb, n⟩ := st
@@ -106,14 +111,18 @@ theorem opCheckSig_good (script : Bytes) (h : Pre B st) (hn : Named sop) (hB : 5
   · arm_simp hn; lim_finish
   · arm_simp hn; lim_finish
   · have hb : b.length ≤ B := h.2.2.1 b (by simp)
-    obtain ⟨e, he⟩ := encodeOpPushdata_ok b (by omega)
+    have he := encodeOpPushdata_eq b (by omega)
+    have hpat := pushEnc_pat b (by omega)
     obtain ⟨nm, hnm⟩ := Option.isSome_iff_exists.mp hn
     have hl := h.lim
     have hp := pre_tail (pre_tail h)
     simp only [checkArgs, List.length_cons, len_lt_2, if_false, getTop?_1, getTop?_2, pyIdx, bind, Except.bind, he]
-    rcases findAndDelete_cases (St.cap ⟨a :: b :: rest, al, vf, pb, n⟩) (List.drop pb script) e with ⟨r, hf⟩ | hf
+    rcases findAndDelete_cases (St.cap ⟨a :: b :: rest, al, vf, pb, n⟩) (List.drop pb script) (Ref.pushEnc b) with ⟨r, hf⟩ | hf
     · simp only [hf]
-      rcases checkSig_cases c (St.cap ⟨a :: b :: rest, al, vf, pb, n⟩) b a r with ⟨ok, hk⟩ | hk | ⟨hk, hneg⟩
+      have hrl : r.length ≤ MAX_SCRIPT_SIZE := by
+        have := findAndDelete_length_le hpat hf
+        simp only [List.length_drop] at this; omega
+      rcases checkSig_cases c (St.cap ⟨a :: b :: rest, al, vf, pb, n⟩) b a r hrl with ⟨ok, hk⟩ | hk | ⟨cls, hk, hneg⟩
       · simp only [hk, pop?_cons]
         obtain ⟨q1, q2, q3, q4⟩ := hp
         dsimp only at q1 q2 q3 q4
